@@ -89,6 +89,33 @@ fn main() {
                 });
             std::process::exit(replay_main(engine, &file, &path));
         },
+        "digest" => {
+            // determinism proof aid: one line per run with everything the run observed (signature, counters,
+            // violations); two executions of the same (seed, run) must print identical lines
+            let focus = args.get(2).cloned().unwrap_or_else(|| usage());
+            let engine = engines::for_property(&focus).expect("engine");
+            install_quiet_panic_hook();
+            engine.worker_init();
+            let g = |n: &str| arg_val(&args, n).and_then(|s| s.parse::<u64>().ok());
+            let seed = g("--seed").unwrap_or(20261003);
+            let first = g("--first").unwrap_or(0);
+            let n = g("--n").unwrap_or(10);
+            let tier = Tier::parse(&arg_val(&args, "--tier").unwrap_or_default());
+            for run in first..first + n {
+                let plan = engine.gen_plan(seed, run, &focus, tier);
+                let rep = run_caught(engine, &plan, &focus);
+                let mut v: Vec<String> = rep.violations.iter().map(|v| format!("{}|{}", v.clause, v.site)).collect();
+                v.sort();
+                println!(
+                    "{run} sig={:016x} nt={} sim_ms={} counters={} violations={:?}",
+                    rep.signature,
+                    rep.nontrivial,
+                    rep.sim_ms,
+                    serde_json::to_string(&rep.counters).unwrap(),
+                    v
+                );
+            }
+        },
         "plan" => {
             // debugging aid: print the plan of one run
             let focus = args.get(2).cloned().unwrap_or_else(|| usage());
